@@ -77,6 +77,7 @@ type Result struct {
 	Created  int       `json:"created,omitempty"` // 1 + id of the set this call created (0: none)
 	How      string    `json:"how,omitempty"`     // new | function-form | clone
 	Handle   string    `json:"handle,omitempty"`  // name of the new set's root handle
+	Exists   bool      `json:"exists,omitempty"`  // execution calls: the target is a member of the set
 	Subs     []*Result `json:"subs,omitempty"`
 }
 
@@ -643,6 +644,16 @@ func (w *World) recv(op *Op) *template.Template {
 	return root
 }
 
+// member reports (only in single-task phases, where the extra Lookup cannot
+// perturb a schedule under test) whether op.Name is a member of op's set.
+func (w *World) member(op *Op) bool {
+	if len(w.c.Tasks) > 1 {
+		return false
+	}
+	root := w.sets[op.Set]
+	return root != nil && root.Lookup(op.Name) != nil
+}
+
 func tt(s string) template.TrustedTemplate {
 	return tconv.TrustedTemplateFromStringKnownToSatisfyTypeContract(s)
 }
@@ -790,20 +801,24 @@ func (w *World) do(op *Op, res *Result) {
 		t.CSPCompatible()
 	case opExec:
 		res.Target = t.Name()
+		res.Exists = true
 		err := t.Execute(&SimWriter{res}, buildVal(op.Data))
 		classify(err, res)
 	case opExecTmpl:
 		res.Target = op.Name
+		res.Exists = w.member(op)
 		err := t.ExecuteTemplate(&SimWriter{res}, op.Name, buildVal(op.Data))
 		classify(err, res)
 	case opExecHTML:
 		res.Target = t.Name()
+		res.Exists = true
 		h, err := t.ExecuteToHTML(buildVal(op.Data))
 		classify(err, res)
 		res.HTML = h.String()
 		res.Out = []byte(h.String())
 	case opExecTmplHTML:
 		res.Target = op.Name
+		res.Exists = w.member(op)
 		h, err := t.ExecuteTemplateToHTML(op.Name, buildVal(op.Data))
 		classify(err, res)
 		res.HTML = h.String()
@@ -821,6 +836,7 @@ func (w *World) do(op *Op, res *Result) {
 			return
 		}
 		res.Target = lt.Name()
+		res.Exists = true
 		err := lt.Execute(&SimWriter{res}, buildVal(op.Data))
 		classify(err, res)
 	case opTemplates:
